@@ -1,1 +1,2 @@
 //! Generators / writers shared between properties (perf.data, ELF64, Breakpad .sym, …).
+pub mod breakpad_sym;
